@@ -260,9 +260,9 @@ def job_gmm(P, size=(2, 1, 3)):
             P.run("gmm-%s-%s" % (tr, "dask" if dask else "numpy"), sc_gmm, dict(trainer=tr, dask=dask, size=size), validate=1)
 
 
-def job_kmeans(P, size=(2, 1, 3)):
-    for dask in (False, True):
-        for it in (1, 2):
+def job_kmeans(P, size=(2, 1, 3), combos=((False, 1), (False, 2), (True, 1), (True, 2))):
+    for dask, it in combos:
+        if True:
             P.run("kmeans-%s-it%d" % ("dask" if dask else "numpy", it), sc_kmeans, dict(dask=dask, iters=it, size=size), validate=1)
 
 
@@ -282,5 +282,5 @@ def job_fa(P, kind):
 def jobs(tier):
     out = [("gmm", "job_gmm", {}), ("kmeans", "job_kmeans", {}), ("misc", "job_misc", {}), ("isv", "job_fa", dict(kind="isv")), ("jfa", "job_fa", dict(kind="jfa"))]
     if tier == "thorough":
-        out += [("gmm@C2D2N3", "job_gmm", dict(size=(2, 2, 3))), ("kmeans@K2D2N3", "job_kmeans", dict(size=(2, 2, 3)))]
+        out += [("gmm@C2D2N3", "job_gmm", dict(size=(2, 2, 3))), ("kmeans@K2D2N3-numpy", "job_kmeans", dict(size=(2, 2, 3), combos=((False, 1),))), ("kmeans@K2D2N3-dask", "job_kmeans", dict(size=(2, 2, 3), combos=((True, 1),)))]
     return out
